@@ -11,6 +11,7 @@ Definition q_secure (q : qmode) : bool := match q with QInsecure => false | _ =>
 Definition fetch_secure (f : fetch) : bool := q_secure (f_q f).
 (* the query only ever yields rows of the caller's own project (all rows for an admin) *)
 Definition q_own (q : qmode) : bool := match q with QOwn | QOwnAdmin => true | _ => false end.
+Definition guard_on (g : guard) : bool := match g with GNone => false | _ => true end.
 
 (* every query of the function carries the tenancy filter *)
 Definition shape_secure (s : shape) : bool :=
@@ -33,8 +34,8 @@ Definition is_write (s : shape) : bool :=
    query restricted to the caller's own rows *)
 Definition shape_guarded (s : shape) : bool :=
   match s with
-  | SUpdate f chk _ | SDeleteObj f chk _ => chk || q_own (f_q f)
-  | SCreateOrUpdate _ u chk _ => chk || q_own (f_q u)
+  | SUpdate f g _ | SDeleteObj f g _ => guard_on g || q_own (f_q f)
+  | SCreateOrUpdate _ u g _ => guard_on g || q_own (f_q u)
   | SDeleteQuery f => q_own (f_q f)
   | SDeleteAll q => q_own q
   | _ => true
@@ -43,8 +44,8 @@ Definition shape_guarded (s : shape) : bool :=
 (* a writing shape with neither guard: its fetch reaches rows of other projects and nothing checks the owner *)
 Definition shape_exposed (s : shape) : bool :=
   match s with
-  | SUpdate f chk _ | SDeleteObj f chk _ => negb chk && negb (q_own (f_q f))
-  | SCreateOrUpdate p u chk _ => negb chk && negb (q_own (f_q u)) && negb (q_own (f_q p))
+  | SUpdate f g _ | SDeleteObj f g _ => negb (guard_on g) && negb (q_own (f_q f))
+  | SCreateOrUpdate p u g _ => negb (guard_on g) && negb (q_own (f_q u)) && negb (q_own (f_q p))
   | SDeleteQuery f => negb (q_own (f_q f))
   | SDeleteAll q => negb (q_own q)
   | _ => false
@@ -264,7 +265,7 @@ Proof.
     [|apply unchanged_inv; [reflexivity|assumption|assumption]].
   apply first_of_in in E. apply candidates_visible in E; try assumption. destruct E as [Hr0 Hv0].
   assert (Hne : r_id r0 <> r_id r) by (eapply vis_ne; eauto).
-  destruct (if chk then access_check c r0 else AOk);
+  destruct (guard_check chk c r0);
     try (apply unchanged_inv; [reflexivity|assumption|assumption]).
   unfold step_inv. cbn [fst snd result_rows rows mems]. repeat split.
   - intros x [Hx|[]]. subst x. cbn [apply_sets r_id]. exact Hne.
@@ -324,7 +325,7 @@ Proof.
       [|apply unchanged_inv; [reflexivity|assumption|assumption]].
     apply first_of_in in E. apply candidates_visible in E; try assumption. destruct E as [Hr0 Hv0].
     assert (Hne : r_id r0 <> r_id r) by (eapply vis_ne; eauto).
-    destruct (if chk then access_check c r0 else AOk);
+    destruct (guard_check chk c r0);
       try (apply unchanged_inv; [reflexivity|assumption|assumption]).
     unfold step_inv. cbn [fst snd result_rows rows mems]. repeat split.
     + intros x [].
@@ -429,24 +430,26 @@ Proof.
 Qed.
 
 Lemma guarded_fetch_owner : forall f chk d c a r0,
-  chk || q_own (f_q f) = true -> c_admin c = false ->
+  guard_on chk || q_own (f_q f) = true -> c_admin c = false ->
   q_visible (f_q f) d c a r0 = true ->
-  (if chk then access_check c r0 else AOk) = AOk -> r_owner r0 = c_project c.
+  (guard_check chk c r0) = AOk -> r_owner r0 = c_project c.
 Proof.
-  intros f chk d c a r0 Hg Hc Hq Ha. destruct chk.
+  intros f chk d c a r0 Hg Hc Hq Ha. destruct chk; cbn [guard_on guard_check orb] in *.
+  - eapply q_own_nonadmin; eauto.
+  - rewrite Hc in Ha. cbn [negb andb] in Ha.
+    destruct (r_owner r0 =? c_project c) eqn:E; [apply Nat.eqb_eq; exact E|cbn [negb] in Ha; discriminate].
   - apply access_ok_owner; assumption.
-  - cbn [orb] in Hg. eapply q_own_nonadmin; eauto.
 Qed.
 
 Lemma guarded_update : forall f chk forced d c a r,
-  chk || q_own (f_q f) = true ->
+  guard_on chk || q_own (f_q f) = true ->
   c_admin c = false -> r_owner r <> c_project c -> wf_db d -> In r (rows d) ->
   In r (rows (snd (do_update f chk forced d c a))) /\ wf_db (snd (do_update f chk forced d c a)).
 Proof.
   intros f chk forced d c a r Hg Hc Hown Hwf Hr. unfold do_update.
   destruct (first_of (candidates f d c a) a) as [r0|] eqn:E; [|split; assumption].
   apply first_of_in in E. apply candidates_sound in E. destruct E as [Hr0 Hq0].
-  destruct (if chk then access_check c r0 else AOk) eqn:Ha; try (split; assumption).
+  destruct (guard_check chk c r0) eqn:Ha; try (split; assumption).
   pose proof (guarded_fetch_owner f chk d c a r0 Hg Hc Hq0 Ha) as Ho. cbn [snd rows]. split.
   - apply in_replace_other; [exact Hr|]. cbn [apply_sets r_id]. intro Heq.
     assert (r = r0) by (eapply nodup_id_inj; eauto). subst. contradiction.
@@ -479,7 +482,7 @@ Proof.
   - apply guarded_update; assumption.
   - destruct (first_of (candidates f d c a) a) as [r0|] eqn:E; [|split; assumption].
     apply first_of_in in E. apply candidates_sound in E. destruct E as [Hr0 Hq0].
-    destruct (if chk then access_check c r0 else AOk) eqn:Ha; try (split; assumption).
+    destruct (guard_check chk c r0) eqn:Ha; try (split; assumption).
     pose proof (guarded_fetch_owner f chk d c a r0 Hs Hc Hq0 Ha) as Ho. cbn [snd rows]. split.
     + unfold remove_row. apply filter_In. split; [exact Hr|]. apply negb_true_iff. apply Nat.eqb_neq. intro Heq.
       assert (r = r0) by (eapply nodup_id_inj; eauto). subst. contradiction.
@@ -531,14 +534,16 @@ Proof.
   intros s m Hg.
   destruct s as [f|f|q|q|forced|f chk forced|f chk cas|f|q|p u chk forced|]; cbn [shape_exposed] in *;
     try discriminate; cbn [exec_op].
-  - apply andb_true_iff in Hg. destruct Hg as [Hchk Hq]. apply negb_true_iff in Hchk, Hq. subst chk.
+  - apply andb_true_iff in Hg. destruct Hg as [Hchk Hq]. apply negb_true_iff in Hchk, Hq.
+    destruct chk; try discriminate Hchk.
     unfold do_update. rewrite (wit_candidates f m Hq). destruct m, forced; vm_compute; discriminate.
-  - apply andb_true_iff in Hg. destruct Hg as [Hchk Hq]. apply negb_true_iff in Hchk, Hq. subst chk.
+  - apply andb_true_iff in Hg. destruct Hg as [Hchk Hq]. apply negb_true_iff in Hchk, Hq.
+    destruct chk; try discriminate Hchk.
     rewrite (wit_candidates f m Hq). destruct m, cas; vm_compute; discriminate.
   - apply negb_true_iff in Hg. rewrite (wit_candidates f m Hg). destruct m; vm_compute; discriminate.
   - apply negb_true_iff in Hg. rewrite (wit_candidates (mkFetch q SelAll) m Hg). destruct m; vm_compute; discriminate.
   - apply andb_true_iff in Hg. destruct Hg as [Hg Hp]. apply andb_true_iff in Hg. destruct Hg as [Hchk Hq].
-    apply negb_true_iff in Hchk, Hq, Hp. subst chk.
+    apply negb_true_iff in Hchk, Hq, Hp. destruct chk; try discriminate Hchk.
     rewrite (wit_candidates p m Hp). unfold do_update. rewrite (wit_candidates u m Hq).
     destruct m, forced; vm_compute; discriminate.
 Qed.
@@ -548,7 +553,7 @@ Proof.
   intros s H. destruct s as [f|f|q|q|forced|f chk forced|f chk cas|f|q|p u chk forced|]; cbn in *; try discriminate;
     repeat (apply andb_true_iff in H; destruct H as [H ?]);
     repeat match goal with X : negb _ = true |- _ => apply negb_true_iff in X end;
-    split; try reflexivity; try (apply orb_false_iff; split; assumption); assumption.
+    split; try reflexivity; try (apply orb_false_iff; split; assumption); try assumption.
 Qed.
 
 Lemma wit_facts : forall m,
@@ -581,7 +586,7 @@ Proof.
   { intros f chk. unfold do_update. destruct (first_of (candidates f d c a) a) as [r0|] eqn:E;
       [|cbn [snd]; intro H; left; apply Hkeep; exact H].
     apply first_of_in in E. apply candidates_sound in E. destruct E as [Hr0 _].
-    destruct (if chk then access_check c r0 else AOk); cbn [snd rows]; intro H;
+    destruct (guard_check chk c r0); cbn [snd rows]; intro H;
       try (left; apply Hkeep; exact H).
     apply in_replace_inv in H. destruct H as [[Hx' _]|H]; [|left; apply Hkeep; exact H].
     subst x. cbn [apply_sets r_owner r_id]. destruct (a_owner_val a); [right; reflexivity|].
@@ -591,7 +596,7 @@ Proof.
   - subst forced. apply Hcreate. exact Hx.
   - subst forced. eapply Hupdate. exact Hx.
   - left. destruct (first_of (candidates f d c a) a) as [r0|]; [|apply Hkeep; exact Hx].
-    destruct (if chk then access_check c r0 else AOk); cbn [snd rows] in Hx; try (apply Hkeep; exact Hx).
+    destruct (guard_check chk c r0); cbn [snd rows] in Hx; try (apply Hkeep; exact Hx).
     unfold remove_row in Hx. apply filter_In in Hx. apply Hkeep. tauto.
   - left. destruct (candidates f d c a); cbn [snd rows] in Hx; [apply Hkeep; exact Hx|].
     apply filter_In in Hx. apply Hkeep. tauto.
